@@ -324,6 +324,41 @@ def ofL : LItem → PItem
   | .inl s => .inl (String.ofList s)
   | .inr i => .inr i
 
+/-- `_is_ident` on a jq string: the exact ASCII predicate (no case folding, no Unicode classes) -/
+def isIdent (s : String) : Bool := isIdentL s.toList
+
+/-- the unquoted keys of an expression string, scanned without the parser: after a '.', everything up to the
+    next '.', '[' or the end, unless it starts with '"' (then the string literal is skipped, honouring
+    backslash escapes). `none` = the text is not of the shape `.key` / `."…"` / `[…]` at all.
+    The empty key directly after the leading '.' (placeholder of the empty path / a leading index) is dropped. -/
+def unquotedKeysAux : Nat → List Char → Bool → List (List Char) → Option (List (List Char))
+  | 0, _, _, _ => none
+  | _ + 1, [], _, acc => some acc.reverse
+  | f + 1, '.' :: '"' :: rest, _, acc =>
+    -- skip the literal
+    let rec skip : Nat → List Char → Option (List Char)
+      | 0, _ => none
+      | _ + 1, [] => none
+      | g + 1, '\\' :: _ :: r => skip g r
+      | _ + 1, '"' :: r => some r
+      | g + 1, _ :: r => skip g r
+    match skip (rest.length + 1) rest with
+    | some r => unquotedKeysAux f r false acc
+    | none => none
+  | f + 1, '.' :: rest, first, acc =>
+    let key := rest.takeWhile (fun c => c != '.' && c != '[')
+    let rest' := rest.dropWhile (fun c => c != '.' && c != '[')
+    if key.isEmpty then
+      if first && (rest'.isEmpty || rest'.head? == some '[') then unquotedKeysAux f rest' false acc else none
+    else unquotedKeysAux f rest' false (key :: acc)
+  | f + 1, '[' :: rest, _, acc =>
+    match rest.dropWhile (· != ']') with
+    | _ :: r => unquotedKeysAux f r false acc
+    | [] => none
+  | _ + 1, _ :: _, _, _ => none
+
+def unquotedKeys (e : List Char) : Option (List (List Char)) := unquotedKeysAux (e.length + 1) e true []
+
 def pathToExpr (p : Path) : String := String.ofList (pathToExprL (p.map toL))
 
 def exprToPath (e : String) : Option Path := (exprToPathL e.toList).map (·.map ofL)
